@@ -49,6 +49,13 @@ def gen_trees(tier, rng, plens, quick_n, thorough_n, need_nonempty=True):
             pairs = rng.sample(pairs, 40)
         for p in pairs:
             out.append(("D2", p, P))
+    # larger piece counts (powers of two and not, halving sequences with even and odd levels)
+    P0 = plens[0]
+    top = 70 if tier == "thorough" else 40
+    for npc in range(6, top + 1):
+        deltas = (-1, 0, 1, B + 1) if tier == "thorough" else (rng.choice((-1, 0, 1, B + 1)),)
+        for dl in deltas:
+            out.append((rng.choice(("S1", "D1")), (npc * P0 + dl,), P0))
     n = thorough_n if tier == "thorough" else quick_n
     shapes = ["D3", "D4", "D2n", "D2"]
     for _ in range(n):
@@ -242,7 +249,8 @@ class C10(CreateProp):
                     out.append({"creator": cr, "version": v, "P": P, "tree": mk_tree(sh, sizes),
                                 "group": "g%d" % g, "clauses": ["C10.creators"]})
         for P in plens(tier):
-            for s in alphabet(P) + [6 * P + 1, 7 * P, 8 * P + B]:
+            more = [k * P + d for k in range(6, 34 if P == B else 13) for d in (0, 1)]
+            for s in alphabet(P) + more:
                 if s > 0:
                     out.append({"op": "hashers", "size": s, "P": P, "group": "none",
                                 "clauses": ["C10.hashers", "C10.steps"]})
